@@ -189,6 +189,13 @@ pub fn finalize(
             ))));
         }
     }
+    if import_broken {
+        // The importer stopped reading before the stream was complete: whatever its exit status,
+        // the import is not the rewrite that was asked for.
+        return Err(FilterRepoError::Io(io::Error::other(
+            "fast-import closed its input before the stream was complete",
+        )));
+    }
 
     // Ensure the filtered stream is flushed before any reads from it (e.g., commit-map fallback)
     let _ = filt_file.flush();
